@@ -4,5 +4,5 @@ From Martian.C18 Require Import Model.
 Extraction Language OCaml.
 Extraction "model.ml" base_anchor write run open_ctx respond invalidate set_acts set_off_gi emitted stamps
   first_close validate build_map post accept close_conn lstep lrun listener_init conn_valid
-  lookup_shape conn_default_cap ok_prefix ok_close ok_halts gap_at ok_release ok_rate throttle_at ok_chunk_bw bytes_inside delays_before_last_byte ok_total_delay ok_unshaped accepted_wrongly ok_validity ok_no_leak ok_grant range_start range_start_rfc
+  lookup_shape conn_default_cap ok_prefix ok_close ok_halts gap_at ok_release ok_rate throttle_at ok_chunk_bw bytes_inside delays_before_last_byte ok_total_delay ok_unshaped accepted_wrongly ok_validity ok_no_leak ok_grant range_start
   bstep bpassed default_bw is_action_ev.
